@@ -179,6 +179,17 @@ func init() {
 			}
 			cw.add("skip", "skip", "N cfg newclient-together", prop)
 		}
+		// keys around 65 536 and 131 072 bytes (only the first 32 bytes count), addresses made of brackets and colons
+		for _, l := range []int{65535, 65536, 65537, 65540, 65567, 65568, 131072, 131073} {
+			k := make([]byte, l)
+			for i := range k {
+				k[i] = byte('a' + i%23)
+			}
+			cfgCase(cw, rscp.ClientConfig{Address: "h", Username: "u", Password: "p", Key: string(k)}, fmt.Sprintf("key-len=%d", l))
+		}
+		for _, a := range []string{"[", "]", "[]", "[::1]", "[::1", "::1]", "::1", ":", "::", "[[::1]]", "a:b", "1.2.3.4:5"} {
+			cfgCase(cw, rscp.ClientConfig{Address: a, Username: "u", Password: "p", Key: "k"}, "bracket-colon-address")
+		}
 		// keys with multi-byte characters, in particular straddling the 32nd byte
 		for pre := 26; pre <= 33; pre++ {
 			for _, ch := range []string{"é", "€", "😀", "\xff", "ä\u0301"} {
